@@ -11,14 +11,20 @@ func AddInt64(p *int64, d int64) int64 {
 	vsched.PointOp("atomic.add", 0, nil)
 	return stdatomic.AddInt64(p, d)
 }
-func LoadInt64(p *int64) int64     { vsched.PointOp("atomic.load", 0, nil); return stdatomic.LoadInt64(p) }
-func StoreInt64(p *int64, v int64) { vsched.PointOp("atomic.store", 0, nil); stdatomic.StoreInt64(p, v) }
+func LoadInt64(p *int64) int64 { vsched.PointOp("atomic.load", 0, nil); return stdatomic.LoadInt64(p) }
+func StoreInt64(p *int64, v int64) {
+	vsched.PointOp("atomic.store", 0, nil)
+	stdatomic.StoreInt64(p, v)
+}
 func AddInt32(p *int32, d int32) int32 {
 	vsched.PointOp("atomic.add", 0, nil)
 	return stdatomic.AddInt32(p, d)
 }
-func LoadInt32(p *int32) int32     { vsched.PointOp("atomic.load", 0, nil); return stdatomic.LoadInt32(p) }
-func StoreInt32(p *int32, v int32) { vsched.PointOp("atomic.store", 0, nil); stdatomic.StoreInt32(p, v) }
+func LoadInt32(p *int32) int32 { vsched.PointOp("atomic.load", 0, nil); return stdatomic.LoadInt32(p) }
+func StoreInt32(p *int32, v int32) {
+	vsched.PointOp("atomic.store", 0, nil)
+	stdatomic.StoreInt32(p, v)
+}
 func CompareAndSwapInt64(p *int64, o, n int64) bool {
 	vsched.PointOp("atomic.cas", 0, nil)
 	return stdatomic.CompareAndSwapInt64(p, o, n)
@@ -27,3 +33,90 @@ func CompareAndSwapInt32(p *int32, o, n int32) bool {
 	vsched.PointOp("atomic.cas", 0, nil)
 	return stdatomic.CompareAndSwapInt32(p, o, n)
 }
+
+// ---- the rest of sync/atomic's function set and its types (every operation is a scheduling point and is carried
+// out by the real primitive, so that the race detector sees it as atomic) ----
+
+func pt(op string) { vsched.PointOp("atomic."+op, 0, nil) }
+
+func SwapInt32(p *int32, v int32) int32 { pt("swap"); return stdatomic.SwapInt32(p, v) }
+func SwapInt64(p *int64, v int64) int64 { pt("swap"); return stdatomic.SwapInt64(p, v) }
+
+func AddUint32(p *uint32, d uint32) uint32  { pt("add"); return stdatomic.AddUint32(p, d) }
+func LoadUint32(p *uint32) uint32           { pt("load"); return stdatomic.LoadUint32(p) }
+func StoreUint32(p *uint32, v uint32)       { pt("store"); stdatomic.StoreUint32(p, v) }
+func SwapUint32(p *uint32, v uint32) uint32 { pt("swap"); return stdatomic.SwapUint32(p, v) }
+func CompareAndSwapUint32(p *uint32, o, n uint32) bool {
+	pt("cas")
+	return stdatomic.CompareAndSwapUint32(p, o, n)
+}
+
+func AddUint64(p *uint64, d uint64) uint64  { pt("add"); return stdatomic.AddUint64(p, d) }
+func LoadUint64(p *uint64) uint64           { pt("load"); return stdatomic.LoadUint64(p) }
+func StoreUint64(p *uint64, v uint64)       { pt("store"); stdatomic.StoreUint64(p, v) }
+func SwapUint64(p *uint64, v uint64) uint64 { pt("swap"); return stdatomic.SwapUint64(p, v) }
+func CompareAndSwapUint64(p *uint64, o, n uint64) bool {
+	pt("cas")
+	return stdatomic.CompareAndSwapUint64(p, o, n)
+}
+
+func AddUintptr(p *uintptr, d uintptr) uintptr { pt("add"); return stdatomic.AddUintptr(p, d) }
+func LoadUintptr(p *uintptr) uintptr           { pt("load"); return stdatomic.LoadUintptr(p) }
+func StoreUintptr(p *uintptr, v uintptr)       { pt("store"); stdatomic.StoreUintptr(p, v) }
+func CompareAndSwapUintptr(p *uintptr, o, n uintptr) bool {
+	pt("cas")
+	return stdatomic.CompareAndSwapUintptr(p, o, n)
+}
+
+type Bool struct{ v stdatomic.Bool }
+
+func (x *Bool) Load() bool                    { pt("load"); return x.v.Load() }
+func (x *Bool) Store(b bool)                  { pt("store"); x.v.Store(b) }
+func (x *Bool) Swap(b bool) bool              { pt("swap"); return x.v.Swap(b) }
+func (x *Bool) CompareAndSwap(o, n bool) bool { pt("cas"); return x.v.CompareAndSwap(o, n) }
+
+type Int32 struct{ v stdatomic.Int32 }
+
+func (x *Int32) Load() int32                    { pt("load"); return x.v.Load() }
+func (x *Int32) Store(n int32)                  { pt("store"); x.v.Store(n) }
+func (x *Int32) Add(d int32) int32              { pt("add"); return x.v.Add(d) }
+func (x *Int32) Swap(n int32) int32             { pt("swap"); return x.v.Swap(n) }
+func (x *Int32) CompareAndSwap(o, n int32) bool { pt("cas"); return x.v.CompareAndSwap(o, n) }
+
+type Int64 struct{ v stdatomic.Int64 }
+
+func (x *Int64) Load() int64                    { pt("load"); return x.v.Load() }
+func (x *Int64) Store(n int64)                  { pt("store"); x.v.Store(n) }
+func (x *Int64) Add(d int64) int64              { pt("add"); return x.v.Add(d) }
+func (x *Int64) Swap(n int64) int64             { pt("swap"); return x.v.Swap(n) }
+func (x *Int64) CompareAndSwap(o, n int64) bool { pt("cas"); return x.v.CompareAndSwap(o, n) }
+
+type Uint32 struct{ v stdatomic.Uint32 }
+
+func (x *Uint32) Load() uint32                    { pt("load"); return x.v.Load() }
+func (x *Uint32) Store(n uint32)                  { pt("store"); x.v.Store(n) }
+func (x *Uint32) Add(d uint32) uint32             { pt("add"); return x.v.Add(d) }
+func (x *Uint32) Swap(n uint32) uint32            { pt("swap"); return x.v.Swap(n) }
+func (x *Uint32) CompareAndSwap(o, n uint32) bool { pt("cas"); return x.v.CompareAndSwap(o, n) }
+
+type Uint64 struct{ v stdatomic.Uint64 }
+
+func (x *Uint64) Load() uint64                    { pt("load"); return x.v.Load() }
+func (x *Uint64) Store(n uint64)                  { pt("store"); x.v.Store(n) }
+func (x *Uint64) Add(d uint64) uint64             { pt("add"); return x.v.Add(d) }
+func (x *Uint64) Swap(n uint64) uint64            { pt("swap"); return x.v.Swap(n) }
+func (x *Uint64) CompareAndSwap(o, n uint64) bool { pt("cas"); return x.v.CompareAndSwap(o, n) }
+
+type Value struct{ v stdatomic.Value }
+
+func (x *Value) Load() any                    { pt("load"); return x.v.Load() }
+func (x *Value) Store(val any)                { pt("store"); x.v.Store(val) }
+func (x *Value) Swap(val any) any             { pt("swap"); return x.v.Swap(val) }
+func (x *Value) CompareAndSwap(o, n any) bool { pt("cas"); return x.v.CompareAndSwap(o, n) }
+
+type Pointer[T any] struct{ v stdatomic.Pointer[T] }
+
+func (x *Pointer[T]) Load() *T                    { pt("load"); return x.v.Load() }
+func (x *Pointer[T]) Store(p *T)                  { pt("store"); x.v.Store(p) }
+func (x *Pointer[T]) Swap(p *T) *T                { pt("swap"); return x.v.Swap(p) }
+func (x *Pointer[T]) CompareAndSwap(o, n *T) bool { pt("cas"); return x.v.CompareAndSwap(o, n) }
